@@ -175,13 +175,21 @@ def check_arm_purity(ctx, rule, P, fns=None, require_floor=None):
     return n_sites, n_arms
 
 
-def check_tag_control_dependence(ctx, rule, P, allow_pop=("SecretKey<C>::proof_of_possession", "ProofOfPossession<C>::verify")):
+def check_tag_control_dependence(ctx, rule, P, allow_pop=("SecretKey<C>::proof_of_possession", "ProofOfPossession<C>::verify"), only=None):
     """E2-B: outside the scheme traits' own default methods, every scheme tag constant and
-    every scheme-trait call must sit under a scheme arm."""
+    every scheme-trait call must sit under a scheme arm.  `only`: restrict to these functions (and their closures)."""
     n = 0
     for fn in P.fns.values():
         if owner_trait(P, fn) in SCHEME_TRAITS:
             continue
+        if only is not None:
+            base = fn
+            k = 0
+            while base is not None and base.kind == "Closure" and k < 8:
+                base = P.fns.get(base.j.get("parent_key"))
+                k += 1
+            if base is None or base.key not in only:
+                continue
         for bb in sorted(fn.cfg.reachable):
             items = [it for it in scheme_items_in_block(P, fn, bb) if it[0] in ("tag", "call")]
             if not items:
